@@ -71,7 +71,9 @@ def text_of(f, k):
     if f == "M":
         v = 100 + k
         return ("model M\n  parameter Real p = 2;\n  Real x(start = %d, max = %d * p);\n  Real y;\n  Real v[2];\n"
-                "  Lib.Base b;\nequation\n  der(x) = %d * p - x;\n  y = x;\n  v[1] = x + 1;\n  v[2] = 2 * x;\nend M;\n" % (v, v, v))
+                "  Real _a1;\n  Real _b1;\n"
+                "  Lib.Base b;\nequation\n  der(x) = %d * p - x;\n  y = x;\n  v[1] = x + 1;\n  v[2] = 2 * x;\n"
+                "  _a1 = 2 * x;\n  _b1 = 3 * x;\nend M;\n" % (v, v, v))
     if f in ("L1", "L2"):
         v = (200 if f == "L1" else 250) + k
         return ("model T\n  Real z(start = 300);\nequation\n  z = 300;\nend T;\n"
@@ -91,6 +93,9 @@ OPTS = {  # option-set names of spec/ModelCache.tla -> (compiler options, librar
     "O2": ({"detect_aliases": True}, "lib1"),
     "O3": ({"expand_vectors": True}, "lib1"),
     "O4": ({}, "lib2"),
+    # two option sets that differ only in the VALUE of a non-boolean option (both values truthy)
+    "O5": ({"expand_mx": True, "eliminable_variable_expression": r"_a\w*"}, "lib1"),
+    "O6": ({"expand_mx": True, "eliminable_variable_expression": r"_b\w*"}, "lib1"),
 }
 
 
@@ -404,6 +409,7 @@ def decode(proj):
     dv = ids_from([start("x"), start("b.w"), start("b.t.z"), start("b.u.q")])
     dv["simp"] = "y" not in all_names
     dv["ev"] = "v[1]" in all_names
+    dv["eve"] = "a" if "_a1" not in all_names else ("b" if "_b1" not in all_names else "none")
     nom = names.get("x")
     try:
         dv["by"] = int(nom[5][1][0][0]) or 1 if nom else 1     # nominal attribute of x: 0 (default) = version 1
